@@ -3,6 +3,9 @@
 package main
 
 import (
+	"path/filepath"
+	"os"
+	"bytes"
 	"crypto/sha256"
 	"encoding/hex"
 	"fmt"
@@ -28,6 +31,7 @@ func init() { vfDrivers["C17"] = &vfDriver{Run: vfC17, QuickRuns: 300} }
 type vfUpRule struct {
 	ID, Path, Rewrite, Host, Base string
 	Static                        bool
+	File                          string // directory served by a file:// upstream
 	PassHost                      bool
 	re                            *regexp.Regexp
 }
@@ -63,6 +67,20 @@ func vfC17(w *vfWorld) {
 		{ID: "rwswap", Path: "^/swap/([a-z]+)/([a-z0-9]+)$", Rewrite: "/s/$2/$1", Host: "up4.sim"},
 		{ID: "rwq", Path: "^/art/([a-z0-9.-]+)$", Rewrite: "/article?id=$1&src=rule", Host: "up3.sim"},
 		{ID: "static", Path: "/static-ok", Static: true},
+		{ID: "files", Path: "/files/", File: "pub"},
+		{ID: "docs", Path: "^/docs/(.*)$", Rewrite: "/$1", File: "pub"},
+	}
+	// a directory tree for the file:// upstreams, and a file next to it that no request may ever obtain
+	const secretMarker = "TOP-SECRET-OUTSIDE-THE-SERVED-DIRECTORY"
+	fileRoot := filepath.Dir(w.writeFile("secret.txt", secretMarker+"\n"))
+	pubFiles := map[string]string{"a.txt": "content of a.txt\n", "sub/b.txt": "content of sub/b.txt\n", "sub/deep/c d.txt": "content of a file with a space\n", "page.html": "<html>page</html>\n"}
+	for name, content := range pubFiles {
+		if err := os.MkdirAll(filepath.Join(fileRoot, "pub", filepath.Dir(name)), 0o755); err != nil {
+			w.fatalf("c17: %v", err)
+		}
+		if err := os.WriteFile(filepath.Join(fileRoot, "pub", name), []byte(content), 0o644); err != nil {
+			w.fatalf("c17: %v", err)
+		}
 	}
 	var rules []vfUpRule
 	for i, r := range pool {
@@ -83,7 +101,10 @@ func vfC17(w *vfWorld) {
 		for _, r := range rules {
 			ph := r.PassHost
 			u := options.Upstream{ID: r.ID, Path: r.Path, RewriteTarget: r.Rewrite, PassHostHeader: &ph}
-			if r.Static {
+			if r.File != "" {
+				u.PassHostHeader = nil
+				u.URI = "file://" + filepath.Join(fileRoot, r.File)
+			} else if r.Static {
 				u.PassHostHeader = nil
 				u.Static = true
 				code := 204
@@ -150,7 +171,7 @@ func vfC17(w *vfWorld) {
 	nreq := 40 + t.Choice("c17.nreq", 40)
 	for i := 0; i < nreq; i++ {
 		// path
-		prefix := vfPick(t, "c17.prefix", []string{"/", "/api/", "/api/v2/", "/apix/", "/based/", "/rw/", "/rw/deep/", "/other/", "/exact", "/swap/", "/static-ok", "/api", "/exactx", "/art/",
+		prefix := vfPick(t, "c17.prefix", []string{"/", "/api/", "/api/v2/", "/apix/", "/based/", "/rw/", "/rw/deep/", "/other/", "/exact", "/swap/", "/static-ok", "/api", "/exactx", "/art/", "/files/", "/files/", "/docs/",
 			// an encoded slash or letter right at a prefix boundary: which upstream owns the path depends on whether
 			// routing looks at the encoded or the decoded path (raw-path proxying)
 			"/%70ing", "/pin%67", "/%72eady", // decode to the ping / ready paths of the pre-auth chain but ARE not those paths
@@ -166,10 +187,14 @@ func vfC17(w *vfWorld) {
 			if prefix == "/swap/" {
 				path = "/swap/" + vfPick(t, "c17.sw1", []string{"ab", "zz", "q"}) + "/" + vfPick(t, "c17.sw2", []string{"x1", "9", "abc"})
 			}
+			if prefix == "/files/" || prefix == "/docs/" {
+				path = prefix + vfPick(t, "c17.file", []string{"a.txt", "sub/b.txt", "sub/deep/c%20d.txt", "page.html", "missing.txt", "sub/", "", "../secret.txt", "%2e%2e/secret.txt", "sub/../../secret.txt",
+					"..%2fsecret.txt", "sub/..%2f..%2fsecret.txt", "%2e%2e%2fsecret.txt", "sub/%2e%2e/%2e%2e/secret.txt", "a.txt/", "./a.txt", "sub//b.txt", "/secret.txt", "..\\secret.txt", "a.txt%00"})
+			}
 			if prefix == "/art/" {
 				path = "/art/" + vfPick(t, "c17.art", []string{"blog-1", "x", "2024.09", "id", "a-b-c"})
 			}
-			if n > 0 && t.Prob("c17.trail", 200) && prefix != "/art/" {
+			if n > 0 && t.Prob("c17.trail", 200) && prefix != "/art/" && prefix != "/files/" && prefix != "/docs/" {
 				path += "/"
 			}
 		}
@@ -278,6 +303,31 @@ func vfC17(w *vfWorld) {
 		if rule == nil {
 			if len(r.UpHits) > 0 || r.Status != 404 {
 				w.violate("C17", "unrouted-request-proxied", "", "%s matches no configured upstream path but got status %d, upstream hits %d", label, r.Status, len(r.UpHits))
+			}
+			continue
+		}
+		if bytes.Contains(r.Body, []byte(secretMarker)) {
+			w.violate("C17", "file-outside-served-directory", "", "%s: the response contains a file from outside the directory of the file:// upstream", label)
+		}
+		if rule.File != "" {
+			// a file:// upstream: the named file of the served tree, byte for byte, or an error / redirect - never an HTTP upstream
+			w.nontriv = true
+			if len(r.UpHits) > 0 {
+				w.violate("C17", "wrong-upstream", rule.ID, "%s belongs to the file upstream %s but reached %s", label, rule.ID, r.UpHits[0].Up)
+			}
+			rel := strings.TrimPrefix(path, "/"+map[string]string{"files": "files", "docs": "docs"}[rule.ID]+"/")
+			if dec, err := url.PathUnescape(rel); err == nil {
+				conditional := false
+				for _, h := range sent {
+					if h.k == "Range" || h.k == "If-None-Match" {
+						conditional = true // a range / conditional request legitimately gets 206 / 304 / 416
+					}
+				}
+				if want, ok := pubFiles[dec]; ok && (method == "GET") && fault == "" && !conditional && !strings.Contains(rel, "%2f") && !strings.Contains(rel, "%2F") {
+					if r.Status != 200 || string(r.Body) != want {
+						w.violate("C17", "file-upstream-content", rule.ID, "%s: status %d body %q, the served tree holds %q under that name", label, r.Status, vfTrunc(string(r.Body), 60), vfTrunc(want, 60))
+					}
+				}
 			}
 			continue
 		}
